@@ -10,7 +10,18 @@ the one strict loading raises (same class and message).
 Correspondence (K): every document is also sent to the Lean loader model (`load.case`,
 lean/SigmaVerif/Model/Load.lean); on documents the model claims (`inDomain`) the strict outcome class,
 the collecting outcome and the ordered list of collected error classes must coincide with the
-implementation's — a disagreement is reported as model drift (diagnostic, not a violation)."""
+implementation's — a disagreement is reported as model drift (diagnostic, not a violation).
+
+Round 5: (a) documents with TWO independent errors (all pairs of a table of single-error mutations per kind: enum / date / UUID /
+tag / related / licence / timespan / alias / type values out of range), as documents, one-document collections and one-file rule
+sets: "the first collected error equals the one strict loading raises" is a statement about the ORDER of the collected list,
+which only documents with several errors (of every pair of error kinds, with and without a source location) can show.
+(b) rule sets of several files (kind `ruleset`, field `layout`): 2..4 files drawn from valid / broken-in-one-way / broken-twice /
+not-a-rule / sampled collection documents, stored under seeded file names (sub-directories, upper/lower case, digits) and given to
+`load_ruleset` as an explicit file list in the case's order (independent of the alphabetical order of the names), as the
+directory, or as sub-directory + remaining files; all orders of 2 and 3 out of four broken files exhaustively.  Strict loading
+raises the first error of the first broken input, so that error must head the collected list whatever the files are called.
+The compared identity of an error now includes its source location (`SigmaError.__eq__`: class, arguments, source)."""
 from __future__ import annotations
 import copy, os, random, sys
 from .common import WORK, Verdict, outcome_of_exception, cps
@@ -28,7 +39,11 @@ RULE = ("stream 1: three valid base documents per kind (rule, correlation, filte
         "references present / missing / partly missing by name and by id, nested correlations, extended conditions, erroneous referenced rules, "
         "seeded mixes; distinct = distinct (kind, document); "
         "non-trivial = a mutated (not the base) document"
-        "; rule sets loaded from files (load_ruleset) where one file holds the documents of a collection case")
+        "; rule sets loaded from files (load_ruleset) where one file holds the documents of a collection case"
+        "; round 5: documents with two independent errors (all pairs of a single-error mutation table per kind) as document / collection / one-file rule set; "
+        "rule sets of 2..4 files {valid, broken once, broken twice, not a rule, sampled collection} under seeded file names and sub-directories, given as explicit "
+        "file list in any order / directory / sub-directory + files (all orders of 2 and 3 of four broken files exhaustively); the error identity compared "
+        "includes the source location")
 ASSUMPTIONS = [
     "documents are YAML-representable Python values (no custom tags); loading goes through from_dict / SigmaCollection.from_dicts",
     "'the same error' = same exception class and same message text",
@@ -258,6 +273,68 @@ REFS = [
 ]
 
 
+# round 5: single-error mutations per kind (path, value); all pairs of mutations at different paths give documents with two errors
+ERR1 = {
+    "rule": [(("status",), "bogus"), (("level",), "bogus"), (("date",), "2024-02-30"), (("modified",), "24-01-01"), (("id",), "not-a-uuid"), (("tags",), ["nonamespace"]),
+             (("license",), 5), (("related",), [{"id": "x", "type": "derived"}]), (("related",), [{"id": "08fbc97d-0a2f-491c-ae21-8ffcfd3174e9", "type": "bogus"}]),
+             (("title",), 5), (("taxonomy",), 5), (("scope",), 5), (("logsource",), {}), (("detection", "condition"), "sel and"), (("detection", "sel"), {"f|bogus": 1})],
+    "corr": [(("status",), "bogus"), (("level",), "bogus"), (("id",), "not-a-uuid"), (("correlation", "timespan"), "5x"), (("correlation", "type"), "bogus"),
+             (("correlation", "condition"), {"gte": "x"}), (("correlation", "aliases"), {"u": 5}), (("correlation", "generate"), "yes"), (("correlation", "group-by"), 5),
+             (("correlation", "rules"), 5), (("title",), 5), (("tags",), ["nonamespace"]), (("date",), "2024-02-30")],
+    "filter": [(("id",), "not-a-uuid"), (("status",), "bogus"), (("level",), "bogus"), (("tags",), ["nonamespace"]), (("date",), "2024-02-30"), (("title",), 5),
+               (("logsource",), 5), (("filter", "rules"), 5), (("filter", "condition"), ["not flt"]), (("filter", "flt"), {"f|bogus": 1})],
+}
+FILE_NAMES = ["a.yml", "b.yml", "m.yml", "z.yml", "B.yml", "0.yml", "_x.yml", "sub/c.yml", "sub/y.yml", "zz/a.yml", "zz/n.yml", "10.yml", "9.yml"]
+
+
+def two_errors():
+    out = []
+    for kind, muts in ERR1.items():
+        base = BASES[kind][0]
+        for i, (p1, v1) in enumerate(muts):
+            for p2, v2 in muts[i + 1:]:
+                if p1[:len(p2)] == p2 or p2[:len(p1)] == p1:
+                    continue
+                d = copy.deepcopy(base)
+                for p_, v_ in ((p1, v1), (p2, v2)):
+                    cur = d
+                    for q in p_[:-1]:
+                        cur = cur[q]
+                    cur[p_[-1]] = copy.deepcopy(v_)
+                out.append((kind, d))
+    return out
+
+
+def ruleset_layouts(rnd, colls, n):
+    """round 5: rule sets of several files; file names, directories and input order are independent of the order of the files"""
+    import itertools
+    tagl = dict(RULE_, title="two errors", tags=["nonamespace"], license=5)
+    broken = [[dict(RULE_, title="bad level", level="catastrophic")], [dict(RULE_, title="bad status", status="finished")], [{"action": "frobnicate", "title": "unknown action"}],
+              [upd(dict(CORR_, title="bad timespan"), ("correlation", "timespan"), "5 minutes")]]
+    pool = broken + [[tagl], [dict(RULE_, title="valid", name="valid_rule")], [5], [dict(RULE_, title="valid first"), dict(RULE_, title="then bad date", date="2024-02-30")],
+                     [dict(CORR_, title="dangling reference")], [dict(FILT_, logsource=5)]]
+    cases = []
+    names4 = ["a.yml", "b.yml", "m.yml", "z.yml"]
+    for k in (2, 3):            # every order of k of the four broken files; the names follow the pool, not the input order
+        for order in itertools.permutations(range(4), k):
+            cases.append(([broken[i] for i in order], {"names": [names4[i] for i in order], "inputs": [names4[i] for i in order]}, "ruleset-orders"))
+    for _ in range(n):
+        k = rnd.randint(2, 4)
+        files = [copy.deepcopy(rnd.choice(pool)) if rnd.random() < 0.8 else rnd.choice(colls)["doc"] for _ in range(k)]
+        names = rnd.sample(FILE_NAMES, k)
+        r = rnd.random()
+        if r < 0.55:
+            inputs = list(names)
+        elif r < 0.8:
+            inputs = ["."]
+        else:                   # the sub-directories first or last, the files of the top directory one by one
+            dirs = sorted({nm.split("/")[0] for nm in names if "/" in nm})
+            top = [nm for nm in names if "/" not in nm]
+            inputs = dirs + top if rnd.random() < 0.5 else top + dirs
+        cases.append((files, {"names": names, "inputs": inputs}, "ruleset-files"))
+    return cases
+
+
 def gen_cases(tier, seed, gen, effort):
     rnd = random.Random(seed * 10007 + 7)
     thorough = tier == "thorough"
@@ -356,10 +433,18 @@ def gen_cases(tier, seed, gen, effort):
     for c in rnd.sample(colls, min(len(colls), (150 if not thorough else 1500) * effort)) + \
             [{"doc": v, "mut": "fixed"} for v in ([5], ["str"], [None], [{"action": "bogus"}], [[1, 2]], [{"action": "bogus"}, 5], [], [RULE_], [dict(RULE_, level="bogus")])]:
         cases.append({"kind": "ruleset", "doc": [[dict(RULE_, title="valid one")], c["doc"]], "mut": "ruleset:" + c["mut"].split(":")[0]})
-    return [{"kind": c["kind"], "show": repr(c["doc"])[:100], "mut": c["mut"], "doc": penc(c["doc"])} for c in cases], False
+    # round 5 (own random stream: the cases above stay as they were)
+    rnd5 = random.Random(seed * 7121 + 75)
+    for kind, d in two_errors():
+        cases.append({"kind": kind, "doc": d, "mut": "two-errors"})
+        cases.append({"kind": "collection", "doc": [d], "mut": "two-errors"})
+        cases.append({"kind": "ruleset", "doc": [[dict(RULE_, title="valid one")], [d]], "mut": "ruleset:two-errors"})
+    for files, layout, mut in ruleset_layouts(rnd5, colls, (250 if not thorough else 2500) * effort):
+        cases.append({"kind": "ruleset", "doc": files, "mut": mut, "layout": layout})
+    return [dict({"kind": c["kind"], "show": repr(c["doc"])[:100], "mut": c["mut"], "doc": penc(c["doc"])}, **({"layout": c["layout"]} if "layout" in c else {})) for c in cases], False
 
 
-def load(kind, doc, collect):
+def load(kind, doc, collect, layout=None):
     from sigma.rule import SigmaRule
     from sigma.correlations import SigmaCorrelationRule
     from sigma.filters import SigmaFilter
@@ -372,9 +457,12 @@ def load(kind, doc, collect):
         os.makedirs(d)
         try:
             for i, docs in enumerate(doc):
-                with open(os.path.join(d, f"f{i}.yml"), "w") as f:
-                    yaml.safe_dump_all(docs, f)
-            return SigmaCollection.load_ruleset([d], collect_errors=collect)
+                fn = os.path.join(d, layout["names"][i] if layout else f"f{i}.yml")
+                os.makedirs(os.path.dirname(fn), exist_ok=True)
+                with open(fn, "w") as f:
+                    yaml.safe_dump_all(docs if isinstance(docs, list) else [docs], f)
+            inputs = [os.path.normpath(os.path.join(d, x)) for x in layout["inputs"]] if layout else [d]
+            return SigmaCollection.load_ruleset(inputs, collect_errors=collect)
         finally:
             shutil.rmtree(d, ignore_errors=True)
     if kind == "rule":
@@ -392,17 +480,18 @@ def run_impl(case):
     out = {}
     doc = dec(case["doc"])
     try:
-        load(case["kind"], doc, False)
+        load(case["kind"], doc, False, case.get("layout"))
         out["strict"] = "ok"
     except Exception as e:
         out["strict"] = outcome_of_exception(e)
         out["strict_msg"] = str(e)[:200]
+        out["strict_src"] = srcname(e)
         import traceback
         tb = traceback.extract_tb(e.__traceback__)
         site = [f for f in tb if "/sigma/" in f.filename]
         out["site"] = f"{site[-1].filename.split('/sigma/')[-1]}:{site[-1].name}" if site else "?"
     try:
-        obj = load(case["kind"], doc, True)
+        obj = load(case["kind"], doc, True, case.get("layout"))
         errs = list(obj.errors)
         out["collect"] = "ok"
         out["nerr"] = len(errs)
@@ -410,6 +499,8 @@ def run_impl(case):
         if errs:
             out["first"] = f"sigma:{type(errs[0]).__name__}" if hasattr(errs[0], "source") or True else "?"
             out["first_msg"] = str(errs[0])[:200]
+            out["first_src"] = srcname(errs[0])
+            out["srcs"] = [srcname(e) for e in errs][:12]
     except Exception as e:
         out["collect"] = outcome_of_exception(e)
         out["collect_msg"] = str(e)[:200]
@@ -419,6 +510,16 @@ def run_impl(case):
         out["csite"] = f"{site[-1].filename.split('/sigma/')[-1]}:{site[-1].name}" if site else "?"
     out["outcome"] = "ok"
     return out
+
+
+def srcname(e):
+    """the source location of an error (part of the identity of a Sigma error), relative to the rule set directory"""
+    src = getattr(e, "source", None)
+    if src is None:
+        return None
+    t = str(src)
+    k = t.find(f"c07rs_{os.getpid()}")
+    return t[k + len(f"c07rs_{os.getpid()}") + 1:] if k >= 0 else t
 
 
 def penc(v):
@@ -504,6 +605,9 @@ def judge_impl(case, impl):
     nt = case["mut"] != "base"
     tags = [f"kind:{case['kind']}", f"strict:{impl['strict'].split(':')[0]}", f"collect:{impl['collect'].split(':')[0]}", f"mut:{case['mut'].split(':')[0]}"]
     doc_s = repr(doc)[:300]
+    if case.get("layout"):
+        doc_s = f"load_ruleset({case['layout']['inputs']}) with the files {dict(zip(case['layout']['names'], doc))}"[:900]
+        key = key + (repr(case["layout"]),)
     if impl["strict"].startswith("other:"):
         fid = finding_for(impl["site"], impl["strict"])
         return Verdict("violation", f"strict loading of a {case['kind']} raised non-Sigma {impl['strict']} at {impl['site']}: {impl['strict_msg']} :: {case['mut']} :: {doc_s}",
@@ -521,6 +625,9 @@ def judge_impl(case, impl):
     if strict_fails and (impl["first"] != impl["strict"] or norm(impl["first_msg"]) != norm(impl["strict_msg"])):
         return Verdict("violation", f"{case['kind']}: strict raises {impl['strict']} ({impl['strict_msg']!r}) but the first collected error is {impl['first']} ({impl['first_msg']!r}) :: {case['mut']} :: {doc_s}",
                        nt, key, tags=tuple(tags))
+    if strict_fails and "strict_src" in impl and impl["strict_src"] != impl.get("first_src"):
+        return Verdict("violation", f"{case['kind']}: strict raises {impl['strict']} ({impl['strict_msg']!r}) located in {impl['strict_src']} but the first collected error is located in "
+                                    f"{impl.get('first_src')} (collected: {list(zip(impl['errs'], impl.get('srcs', [])))[:6]}) :: {case['mut']} :: {doc_s}", nt, key, tags=tuple(tags))
     return Verdict("ok", "", nt, key, tags=tuple(tags))
 
 
